@@ -41,6 +41,8 @@ pub struct Profile
 	pub pointers: bool,
 	pub loops: bool,
 	pub wide: bool,
+	/// favour functions with pointer / view parameters and calls to them
+	pub call_heavy: bool,
 }
 
 impl Profile
@@ -55,6 +57,15 @@ impl Profile
 			pointers: true,
 			loops: true,
 			wide: true,
+			call_heavy: false,
+		}
+	}
+	pub fn calls() -> Profile
+	{
+		Profile {
+			max_funcs: 5,
+			call_heavy: true,
+			..Profile::exec()
 		}
 	}
 }
@@ -80,6 +91,9 @@ pub struct Gen<'a, 'c>
 	/// generating an `if` condition: no structure literals (the parser
 	/// reserves `{` for the branch, as the docs' examples imply)
 	in_cond: bool,
+	/// statement-level call: missing argument holders may be declared first
+	make_holders: bool,
+	prelude: Vec<Stmt>,
 }
 
 fn lit(v: u128, ty: Prim) -> Expr
@@ -106,6 +120,8 @@ impl<'a, 'c> Gen<'a, 'c>
 			budget: 0,
 			in_const: false,
 			in_cond: false,
+			make_holders: false,
+			prelude: Vec::new(),
 		}
 	}
 
@@ -664,9 +680,12 @@ impl<'a, 'c> Gen<'a, 'c>
 					{
 						if holders.is_empty()
 						{
-							return None;
+							Arg::View(self.make_holder(&Ty::Named(*si))?)
 						}
-						Arg::View(self.c.pick(&holders).clone())
+						else
+						{
+							Arg::View(self.c.pick(&holders).clone())
+						}
 					}
 				}
 				Ty::Slice(elem) =>
@@ -674,18 +693,26 @@ impl<'a, 'c> Gen<'a, 'c>
 					let holders = self.array_places(elem, false);
 					if holders.is_empty()
 					{
-						return None;
+						let n = 1 + self.c.draw(3);
+						Arg::View(self.make_holder(&Ty::Array(elem.clone(), n, None))?)
 					}
-					Arg::View(self.c.pick(&holders).clone())
+					else
+					{
+						Arg::View(self.c.pick(&holders).clone())
+					}
 				}
 				Ty::SlicePtr(elem) =>
 				{
 					let holders = self.array_places(elem, true);
 					if holders.is_empty()
 					{
-						return None;
+						let n = 1 + self.c.draw(3);
+						Arg::Addr(self.make_holder(&Ty::Array(elem.clone(), n, None))?, 1)
 					}
-					Arg::Addr(self.c.pick(&holders).clone(), 1)
+					else
+					{
+						Arg::Addr(self.c.pick(&holders).clone(), 1)
+					}
 				}
 				Ty::Ptr(inner) => match &**inner
 				{
@@ -694,18 +721,24 @@ impl<'a, 'c> Gen<'a, 'c>
 						let ps = self.addressable(Some(*t));
 						if ps.is_empty()
 						{
-							return None;
+							Arg::Addr(self.make_holder(&Ty::Prim(*t))?, 1)
 						}
-						Arg::Addr(self.c.pick(&ps).clone().0, 1)
+						else
+						{
+							Arg::Addr(self.c.pick(&ps).clone().0, 1)
+						}
 					}
 					Ty::Named(si) =>
 					{
 						let holders = self.aggregate_places(&Ty::Named(*si), true);
 						if holders.is_empty()
 						{
-							return None;
+							Arg::Addr(self.make_holder(&Ty::Named(*si))?, 1)
 						}
-						Arg::Addr(self.c.pick(&holders).clone(), 1)
+						else
+						{
+							Arg::Addr(self.c.pick(&holders).clone(), 1)
+						}
 					}
 					Ty::Ptr(inner2) =>
 					{
@@ -718,9 +751,27 @@ impl<'a, 'c> Gen<'a, 'c>
 							.collect();
 						if ptrs.is_empty()
 						{
-							return None;
+							// declare a target and a pointer to it
+							let target = match &**inner2
+							{
+								Ty::Prim(t) => self.make_holder(&Ty::Prim(*t))?,
+								_ => return None,
+							};
+							let pname = self.fresh_var("p");
+							let pty = Ty::Ptr(inner2.clone());
+							self.declare(&pname, pty.clone(), true, false);
+							self.prelude.push(Stmt::Var {
+								name: pname.clone(),
+								ty: pty.clone(),
+								annotate: true,
+								init: Some(Expr::Read(target, pty)),
+							});
+							Arg::Addr(Place::var(&pname), 2)
 						}
-						Arg::Addr(self.c.pick(&ptrs).clone(), 2)
+						else
+						{
+							Arg::Addr(self.c.pick(&ptrs).clone(), 2)
+						}
 					}
 					_ => return None,
 				},
@@ -729,6 +780,35 @@ impl<'a, 'c> Gen<'a, 'c>
 			args.push(a);
 		}
 		Some(args)
+	}
+
+	/// declare a fresh local of type `ty` (statement pushed to the prelude)
+	fn make_holder(&mut self, ty: &Ty) -> Option<Place>
+	{
+		if !self.make_holders || !self.can_declare() || self.in_cond
+		{
+			return None;
+		}
+		let prefix = match ty
+		{
+			Ty::Prim(_) => "v",
+			Ty::Array(..) => "a",
+			Ty::Named(_) => "s",
+			_ => return None,
+		};
+		let name = self.fresh_var(prefix);
+		let saved = self.make_holders;
+		self.make_holders = false;
+		let init = self.init_expr(ty, 1);
+		self.make_holders = saved;
+		self.declare(&name, ty.clone(), true, false);
+		self.prelude.push(Stmt::Var {
+			name: name.clone(),
+			ty: ty.clone(),
+			annotate: true,
+			init: Some(init),
+		});
+		Some(Place::var(&name))
 	}
 
 	/// places holding a value of aggregate type `ty` (struct/word)
@@ -1306,7 +1386,10 @@ impl<'a, 'c> Gen<'a, 'c>
 			return None;
 		}
 		let f = *self.c.pick(&cands);
-		let args = self.args_for(f, 1)?;
+		self.make_holders = true;
+		let args = self.args_for(f, 1);
+		self.make_holders = false;
+		let args = args?;
 		Some(Stmt::Call(f, args))
 	}
 
@@ -1325,7 +1408,10 @@ impl<'a, 'c> Gen<'a, 'c>
 			return None;
 		}
 		let f = *self.c.pick(&cands);
-		let args = self.args_for(f, 1)?;
+		self.make_holders = true;
+		let args = self.args_for(f, 1);
+		self.make_holders = false;
+		let args = args?;
 		let ret = self.sigs[f].ret.unwrap();
 		let name = self.fresh_var("r");
 		self.declare(&name, Ty::Prim(ret), true, false);
@@ -1456,6 +1542,18 @@ impl<'a, 'c> Gen<'a, 'c>
 
 	fn stmt(&mut self, depth: usize) -> Vec<Stmt>
 	{
+		let mut out = self.stmt_inner(depth);
+		if !self.prelude.is_empty()
+		{
+			let mut pre = std::mem::take(&mut self.prelude);
+			pre.append(&mut out);
+			out = pre;
+		}
+		out
+	}
+
+	fn stmt_inner(&mut self, depth: usize) -> Vec<Stmt>
+	{
 		self.budget = self.budget.saturating_sub(1);
 		let deep = depth > 0 && self.budget > 0;
 		let w: [u32; 10] = [
@@ -1466,9 +1564,9 @@ impl<'a, 'c> Gen<'a, 'c>
 			if deep { 2 } else { 0 },                          // block
 			if deep && self.profile.loops { 2 } else { 0 },    // loop
 			if deep { 2 } else { 0 },                          // goto region
-			2,                                                 // call stmt
+			if self.profile.call_heavy { 8 } else { 2 },       // call stmt
 			if self.profile.pointers { 1 } else { 0 },         // repoint
-			2,                                                 // var = impure call
+			if self.profile.call_heavy { 8 } else { 2 },       // var = impure call
 		];
 		match self.c.weighted(&w)
 		{
@@ -1696,14 +1794,15 @@ impl<'a, 'c> Gen<'a, 'c>
 		{
 			let name = self.fresh_var("q");
 			let structs: Vec<usize> = (0..self.prog.structs.len()).collect();
+			let heavy = if self.profile.call_heavy { 3 } else { 1 };
 			let ty = match self.c.weighted(&[
 				6,
-				if self.profile.pointers { 3 } else { 0 },
-				3,
-				if self.profile.pointers { 2 } else { 0 },
-				if structs.is_empty() { 0 } else { 3 },
-				if structs.is_empty() || !self.profile.pointers { 0 } else { 2 },
-				if self.profile.pointers { 1 } else { 0 },
+				if self.profile.pointers { 3 * heavy } else { 0 },
+				3 * heavy,
+				if self.profile.pointers { 2 * heavy } else { 0 },
+				if structs.is_empty() { 0 } else { 3 * heavy },
+				if structs.is_empty() || !self.profile.pointers { 0 } else { 2 * heavy },
+				if self.profile.pointers { heavy } else { 0 },
 			])
 			{
 				0 => Ty::Prim(self.pick_prim()),
